@@ -106,24 +106,34 @@ def processResponse (auth : Option Auth) (signHeader : Bool) (response : Bytes) 
 
 /-! ### transport: a `recv(n)` returns the first `min n |chunk|` bytes of the head chunk; no chunk left = EOF -/
 
-/-- read exactly `n` bytes with the loop of the repaired `_send_pdu`: (data, remaining chunks, recv calls) -/
-def readN : Nat → List Bytes → Nat → R (Bytes × List Bytes × Nat)
-  | 0, chunks, calls => .ok ([], chunks, calls)
-  | _ + 1, [], _ => .error .connectionError               -- `recv` returned b"": closed
-  | n + 1, c :: rest, calls =>
+/-- read exactly `n` bytes with the loop of the repaired `_send_pdu`
+    (`while len(buf) < n: d = recv(n - len(buf)); if not d: raise ConnectionError; buf += d`):
+    (data, remaining chunks, number of recv calls) -/
+def readN : Nat → List Bytes → R (Bytes × List Bytes × Nat)
+  | 0, chunks => .ok ([], chunks, 0)
+  | _ + 1, [] => .error .connectionError                  -- `recv` returned b"": closed
+  | n + 1, c :: rest =>
     if c = [] then .error .connectionError                  -- an empty read is EOF
     else if c.length ≤ n + 1 then
-      (readN (n + 1 - c.length) rest (calls + 1)).map fun (d, r, k) => (c ++ d, r, k)
-    else .ok (c.take (n + 1), c.drop (n + 1) :: rest, calls + 1)
-termination_by n chunks _ => chunks.length
+      (readN (n + 1 - c.length) rest).map fun (d, r, k) => (c ++ d, r, k + 1)
+    else .ok (c.take (n + 1), c.drop (n + 1) :: rest, 1)
+
+/-- number of `recv` calls the loop issues, including the one that observes EOF -/
+def readNCalls : Nat → List Bytes → Nat
+  | 0, _ => 0
+  | _ + 1, [] => 1
+  | n + 1, c :: rest =>
+    if c = [] then 1
+    else if c.length ≤ n + 1 then 1 + readNCalls (n + 1 - c.length) rest
+    else 1
 
 /-- sync `_send_pdu` receive half: header (16) then `frag_len − 16` more; `view[:16] = header` needs frag_len ≥ 16 -/
 def recvSync (chunks : List Bytes) : R (Bytes × Header × List Bytes × Nat) := do
-  let (hd, rest, k) ← readN 16 chunks 0
+  let (hd, rest, k1) ← readN 16 chunks
   let h ← headerUnpack hd
   if h.fragLen < 16 then throw .valueError
-  let (body, rest, k) ← readN (h.fragLen - 16) rest k
-  pure (hd ++ body, h, rest, k)
+  let (body, rest, k2) ← readN (h.fragLen - 16) rest
+  pure (hd ++ body, h, rest, k1 + k2)
 
 /-- async: `StreamReader.readexactly` (IncompleteReadError at EOF) over the same byte stream -/
 def readExactly (n : Nat) (stream : Bytes) : R (Bytes × Bytes) :=
